@@ -113,6 +113,7 @@ def run_cases(scenario, ch, use_python_plugin=True, want_calls=False):
         ctx["world"] = w
         rec = host.Recorder(k, depth=scenario.get("ref_depth", 7)).attach(w)
         rec.install()
+        rec.all_frames = bool(scenario.get("all_frames"))
         ctx["rec"] = rec
         lines = {"mark": p.mark_line, "after": p.after_line, "midcall": p.mid_call_line}
         svc_tps, trig = [], []
@@ -139,7 +140,7 @@ def run_cases(scenario, ch, use_python_plugin=True, want_calls=False):
         if svc_tps:
             w.service.set_config(svc_tps, "h1")
             w.deep.poll.poll()
-            k.settle()
+            common.wait_until(k, lambda: len(w.handler._tp_config) > 0, 120)
         if trig:
             w.handler.new_config(list(w.handler._tp_config) + trig)
         g = p.load()
@@ -152,7 +153,7 @@ def run_cases(scenario, ch, use_python_plugin=True, want_calls=False):
             fns.append(lambda ti=ti, n=n, out=out: g["tmain"](ti + 1, n, out))
         ctx["outs"] = outs
         host.run_threads(k, fns)
-        k.settle()
+        common.wait_delivery(k, w, 5.0 if any(t.get("limits") for t in scenario["tps"]) else 300.0)   # stalled delivery workers are blocked with a deadline: let simulated time pass
         ctx["end_ns"] = k.now_ns
         # ---------------------------------------------------------------- pair captures with delivered snapshots
         wire = {}
@@ -195,3 +196,63 @@ def effective_limits(tp):
     lim = dict(DEFAULTS)
     lim.update(tp.get("limits", {}))
     return lim
+
+
+# ------------------------------------------------------------------------------------------------ shared oracles
+def dedup(viol):
+    seen, vs = set(), []
+    for v in viol:
+        if v["sig"] not in seen:
+            seen.add(v["sig"])
+            vs.append(v)
+    return vs
+
+
+def watch_roots(view, cap, graph):
+    """(roots, issues) for the user watches of the snapshot against the reference evaluation at capture time."""
+    from simkit.snapcheck import Issue
+    roots, issues = [], []
+    for wi, w_ in enumerate(view.watches):
+        if str(w_.source) not in ("0", "WATCH"):
+            continue
+        ref = cap["exprs"].get(w_.expression)
+        if ref is None:
+            continue
+        if ref[0] == "ok":
+            if w_.HasField("good_result") and w_.good_result.ID:
+                roots.append((w_.good_result, ref[1], "watch[%s]" % w_.expression))
+            elif w_.HasField("good_result"):
+                issues.append(Issue("watch-result-without-id", "watch[%s]" % w_.expression))
+            else:
+                issues.append(Issue("watch-no-result", "watch[%s]" % w_.expression, "error %r" % w_.error_result))
+    return roots, issues
+
+
+def ref_levels(graph, roots, max_depth, collection_cap):
+    """Distinct reference nodes by breadth-first level (frame variables = level 1), list-likes capped."""
+    seen = {}
+    level = []
+    for n in roots:
+        if n.serial not in seen:
+            seen[n.serial] = 1
+            level.append(n)
+    levels = [level]
+    d = 1
+    while level and d < max_depth:
+        nxt = []
+        for n in level:
+            kids = graph.expand(n)
+            if n.kind in ("seq", "set") and collection_cap is not None:
+                kids = kids[:collection_cap]
+            elif n.kind == "exc" and collection_cap is not None:
+                # an exception's args are a tuple: the per-collection cap legitimately applies to them
+                args = [k_ for k_ in kids if k_[1] is None][:collection_cap]
+                kids = args + [k_ for k_ in kids if k_[1] is not None]
+            for names, orig, c in kids:
+                if c.serial not in seen:
+                    seen[c.serial] = d + 1
+                    nxt.append(c)
+        levels.append(nxt)
+        level = nxt
+        d += 1
+    return levels, seen
